@@ -90,10 +90,14 @@ func TestC15StubRapid(t *testing.T) {
 }
 
 func TestC15ProxyRapid(t *testing.T) {
-	sub := lab.Sub("real-balancer-rapid", "rapid, chain -> REAL balancer -> raw scripted TCP backend playing a byte-exact response (Content-Length / chunked / close-delimited framing, drawn write partition, in one exchange of six preceded by an interim 100 / 102 / 103 response), raw TCP client without auto-decoding: "+genRule)
+	sub := lab.Sub("real-balancer-rapid", "rapid, chain -> REAL balancer -> raw scripted TCP backend playing a byte-exact response (Content-Length / chunked / close-delimited framing, drawn write partition, in one exchange of six preceded by an interim 100 / 102 / 103 response), raw TCP client without auto-decoding: "+genRule+
+		"; one exchange in eight (with a body) the backend BREAKS OFF after its response head: Content-Length announcing 100 bytes more than it sends (all / all but one / half / none of the body) and close, reset before the first body byte under Content-Length / chunked / close-delimited framing, or chunked with the chunks of a prefix and close without the terminating chunk; "+
+		"such an exchange must not reach the client as a response complete by its own framing, with the backend's status, that decodes cleanly (a visibly broken response or the proxy's own error answer is fine)")
 	addFloors(sub)
 	sub.Floor("no-content-length", 0.25)
 	sub.Floor("declared-content-length", 0.25)
 	sub.Floor("backend-interim-response", 0.08)
+	sub.Floor("backend-aborted-mid-response", 0.06)
+	sub.Floor("abort-visible-to-client", 0.04)
 	runRapid(t, sub, "real-balancer-rapid", "balancer", 5000, 30000)
 }
